@@ -82,3 +82,27 @@ fn o16_12_le4_flips_8_bytes() {
     // frame = data || crc(data); corrupted = (data^e) || (crc(data)^et); accepted iff crc(data^e) == crc(data)^et
     assert!(compute(&e) != compute(&zero) ^ et);
 }
+
+macro_rules! flips { ($name:ident, $n:expr) => {
+    #[kani::proof]
+    #[kani::unwind(34)]
+    fn $name() {
+        // as o16_12_le4_flips_8_bytes, for a longer buffer
+        let e: [u8; $n] = kani::any();
+        let et: u32 = kani::any();
+        let mut w = et.count_ones();
+        let mut i = 0;
+        while i < $n { w += e[i].count_ones(); i += 1; }
+        kani::assume(w >= 1 && w <= 4);
+        let zero = [0u8; $n];
+        assert!(compute(&e) != compute(&zero) ^ et);
+    }
+} }
+//@h props=C16 tier=thorough timeout=1800 role=crc-lemma
+//@fn crc::compute, crc::extend
+//@bound buffers of exactly 16 bytes; all error patterns of weight 1..4 over the 128 data bits + 32 trailer bits
+flips!(o16_12_le4_flips_16_bytes, 16);
+//@h props=C16 tier=thorough timeout=3000 role=crc-lemma
+//@fn crc::compute, crc::extend
+//@bound buffers of exactly 32 bytes; all error patterns of weight 1..4 over the 256 data bits + 32 trailer bits
+flips!(o16_12_le4_flips_32_bytes, 32);
